@@ -84,6 +84,12 @@ type Run struct {
 	known        []finding
 	inconclusive map[string]int64
 	exhaustive   *bool
+
+	// child-process mode (see children.go)
+	childIdx, childN int
+	isChild          bool
+	partialPath      string
+	childViol        []childViolation
 }
 
 // Start parses flags/environment and returns the run context.
@@ -128,7 +134,8 @@ func Start(id, level string) *Run {
 		inconclusive: map[string]int64{},
 	}
 	r.loadKnown()
-	if replay == "" {
+	r.initChild()
+	if replay == "" && !r.isChild {
 		// witnesses of earlier runs must not be mistaken for this run's
 		_ = os.RemoveAll(filepath.Join(root, "replay", id))
 	}
@@ -287,6 +294,14 @@ func (r *Run) Inconclusive(reason string) {
 func (r *Run) Violation(sig Sig, what string, witness any) bool {
 	r.mu.Lock()
 	defer r.mu.Unlock()
+	if r.isChild {
+		if len(r.childViol) < 200 {
+			r.childViol = append(r.childViol, childViolation{Sig: sig, What: what, Witness: witness})
+		} else {
+			r.obs["violations_not_forwarded_by_child"]++
+		}
+		return true
+	}
 	for _, f := range r.known {
 		if f.Status != "known" {
 			continue
@@ -346,6 +361,10 @@ func (r *Run) Violations() int {
 
 // Finish writes the evidence file, prints the verdict lines and exits.
 func (r *Run) Finish() {
+	if r.isChild {
+		r.finishChild()
+		return
+	}
 	r.mu.Lock()
 	defer r.mu.Unlock()
 	cov := map[string]any{
